@@ -308,7 +308,11 @@ func check(id, tier string) int {
 			continue
 		}
 		file := filepath.Join(root, k.Replay)
-		sig, msg, err := runReplay(bin, id, tier, file, "finding")
+		mode := "finding" // a listed finding must still show itself
+		if k.Status == "fixed" {
+			mode = "search" // a repaired defect must stay away, with the listed findings excluded as in the search
+		}
+		sig, msg, err := runReplay(bin, id, tier, file, mode)
 		if err != nil {
 			fmt.Println("INCONCLUSIVE:", err)
 			return 2
